@@ -309,6 +309,13 @@ def mismatch_class(kname, key, exp, got, ref, nspec):
                 law = {k: p for k, p in zip(cand, R.weights_to_probs([ref[k]["desc"].weight for k in cand])) if p > 0}
                 if set(law) == set(nz) and all(abs(law[k] - nz[k]) < 1e-9 for k in law):
                     return "left-terminal-transition-list-ignored"
+    if kname == "trans_prob" and exp and not nz:
+        ei = key[0]
+        if ei + 1 < len(nspec["elements"]) and nspec["elements"][ei + 1]["k"] == "sto":
+            Lt = R.terminal_ref(nspec["elements"][ei + 1]["left"])
+            if Lt.order != d.order:
+                # generation matches the entering descriptor and the left terminal by symbol and id only
+                return "left-terminal-written-without-the-bond-order-of-the-entering-descriptor"
     if not exp and got:
         return "spurious-edges"
     if exp and not got:
